@@ -41,4 +41,55 @@ def tab2Rows {α} (X : Arr3 α) : List (List α) := X.map List.flatten
 /-- the panel a 2-D table holds when read back: one variable whose series is the whole row -/
 def panelOfRows {α} (rows : List (List α)) : Arr3 α := rows.map (fun r => [r])
 
+/-- intrinsic well-formedness of a nested frame that holds an `n × c × t` panel in cells of
+container kind `k`: distinct labels, `c` columns of `n` cells, every cell a series of length `t` -/
+def WFNested {ν α} (n c t : Nat) (k : Bool) (N : Nested ν α) : Prop :=
+  N.names.Nodup ∧ N.cols.length = c ∧
+  ∀ p ∈ N.cols, p.2.length = n ∧ ∀ cell ∈ p.2, ∃ vs : List α, cell = mkCell k vs ∧ vs.length = t
+
+/-- the panel a nested frame holds: `X[i][j]` = the series in row `i`, column `j` -/
+def panelOfNested {ν α} (N : Nested ν α) : Arr3 α :=
+  transposeW N.nRows (N.cols.map (fun p => p.2.map (fun cell => (cell.vals?).getD [])))
+
+/-! ### conversion paths between nested frame, 3-D array and multi-index frame
+
+`Shape` is everything about a container except the panel it holds: which kind it is, its column
+names, the cell container, the level names.  `hopShape` is the bookkeeping the property text
+describes: names are kept whenever both ends carry names, replaced by the defaults `var_i` (or the
+names given explicitly) after a 3-D array, and the options of the last converter decide cell
+container and level names.  `none` = the converter does not apply / its arguments do not fit. -/
+
+inductive Shape (ν : Type) where
+  | arr3
+  | nested (names : List ν) (k : Bool)
+  | mi (inst time : String) (names : List ν)
+  deriving DecidableEq, Repr
+
+def holds {ν α} : Shape ν → Arr3 α → Rep ν α
+  | .arr3, X => .arr3 X
+  | .nested names k, X => .nested (nestedOf names k X)
+  | .mi i t names, X => .mi (miOf i t names X)
+
+def Shape.ok {ν} (c : Nat) : Shape ν → Prop
+  | .arr3 => True
+  | .nested names _ => names.length = c ∧ names.Nodup
+  | .mi _ _ names => names.length = c
+
+def hopShape {ν} [DecidableEq ν] (ops : NameOps ν) (c : Nat) : Hop ν → Shape ν → Option (Shape ν)
+  | .n3, .nested _ _ => some .arr3
+  | .a3n none k, .arr3 => some (.nested (defaultNames ops c) k)
+  | .a3n (some ns) k, .arr3 => if ns.length = c ∧ ns.Nodup then some (.nested ns k) else none
+  | .a3m i t none, .arr3 => some (.mi (i.getD "instances") (t.getD "timepoints") (defaultNames ops c))
+  | .a3m i t (some ns), .arr3 =>
+    if ns.length = c then some (.mi (i.getD "instances") (t.getD "timepoints") ns) else none
+  | .m3 (some i) (some t), .mi i' t' _ => if i = i' ∧ t = t' ∧ i ≠ t then some .arr3 else none
+  | .nm i t, .nested ns _ => some (.mi (i.getD "instance") (t.getD "timepoints") ns)
+  | .mn (some i) k, .mi i' t' ns =>
+    if i = i' ∧ i' ≠ t' ∧ ns.Nodup then some (.nested ns k) else none
+  | _, _ => none
+
+def pathShape {ν} [DecidableEq ν] (ops : NameOps ν) (c : Nat) : List (Hop ν) → Shape ν → Option (Shape ν)
+  | [], s => some s
+  | h :: hs, s => (hopShape ops c h s).bind (pathShape ops c hs)
+
 end SkVerif.Panel.Spec
